@@ -125,7 +125,8 @@ impl Engine for CacheEngine {
             let it = *rng.pick(INS_TYPES);
             let anyt = if rng.chance(1, 2) { lt } else { it };
             l.push(match rng.below(22) {
-                0..=6 => format!("load {lt} {h}"),
+                0..=5 => format!("load {lt} {h}"),
+                6 => format!("expect {lt} {h}"),
                 7 => format!("owned {lt} {h}"),
                 8..=9 => format!("cached {anyt} {h}"),
                 10..=12 => format!("goi {it} {h} {}", rng.below(1000)),
